@@ -730,8 +730,7 @@ func (t *Target) generateMetaUpdates(clients func(*ctree.Leaf)) {
 		}
 		path := metadata.Path(value)
 		prev := t.t.GetLeafValue(path)
-		if prev == nil || prev.(*pb.Notification).Update[0].Val.Value.(*pb.TypedValue_BoolVal).BoolVal != v {
-			noti := metaNotiBool(t.name, value, v)
+		if noti := metaNotiBool(t.name, value, v); !sameMetaValue(prev, noti) {
 			if n, _ := t.gnmiUpdate(noti); n != nil {
 				if clients != nil {
 					clients(n)
@@ -750,8 +749,7 @@ func (t *Target) generateMetaUpdates(clients func(*ctree.Leaf)) {
 		}
 		path := metadata.Path(value)
 		prev := t.t.GetLeafValue(path)
-		if prev == nil || prev.(*pb.Notification).Update[0].Val.Value.(*pb.TypedValue_IntVal).IntVal != v {
-			noti := metaNotiInt(t.name, value, v)
+		if noti := metaNotiInt(t.name, value, v); !sameMetaValue(prev, noti) {
 			if n, _ := t.gnmiUpdate(noti); n != nil {
 				if clients != nil {
 					clients(n)
@@ -770,8 +768,7 @@ func (t *Target) generateMetaUpdates(clients func(*ctree.Leaf)) {
 		}
 		path := metadata.Path(value)
 		prev := t.t.GetLeafValue(path)
-		if prev == nil || prev.(*pb.Notification).Update[0].Val.Value.(*pb.TypedValue_StringVal).StringVal != v {
-			noti := metaNotiStr(t.name, value, v)
+		if noti := metaNotiStr(t.name, value, v); !sameMetaValue(prev, noti) {
 			if n, _ := t.gnmiUpdate(noti); n != nil {
 				if clients != nil {
 					clients(n)
@@ -779,6 +776,18 @@ func (t *Target) generateMetaUpdates(clients func(*ctree.Leaf)) {
 			}
 		}
 	}
+}
+
+// sameMetaValue reports whether prev, the value currently stored for a metadata
+// leaf (nil if there is none), carries the same value as the notification n.
+// A stored value of another shape, e.g. one written by the target itself under
+// the metadata path, counts as different and is overwritten.
+func sameMetaValue(prev interface{}, n *pb.Notification) bool {
+	p, ok := prev.(*pb.Notification)
+	if !ok || len(p.GetUpdate()) == 0 || len(n.GetUpdate()) == 0 {
+		return false
+	}
+	return value.Equal(p.GetUpdate()[0].GetVal(), n.GetUpdate()[0].GetVal())
 }
 
 // Reset clears the Target of stale data upon a reconnection and notifies
